@@ -30,6 +30,47 @@ def record(timeout=1500):
     return evs, tail
 
 
+def record_evals(timeout=1800):
+    """the repository's own tests with every derivative object's user function wrapped by the evaluation recorder
+    (harness/pytest_evalrec.py, nothing in /repo is changed); returns (traces, machinery problems, pytest summary line)"""
+    d = vlib.run_dir('suite-eval')
+    log = os.path.join(d, 'evals.ndjson')
+    env = dict(os.environ)
+    env['VERIF_EVAL_LOG'] = log
+    env.pop(vlib.GUARD, None)
+    env['PYTHONPATH'] = os.path.dirname(os.path.abspath(__file__)) + os.pathsep + os.path.join(vlib.REPO, 'src')
+    cmd = ['/venv/bin/python', '-m', 'pytest', '-q', '-p', 'pytest_evalrec', '-p', 'no:cacheprovider', '--timeout=900', '--continue-on-collection-errors']
+    p = subprocess.run(cmd, cwd=vlib.REPO, env=env, stdout=subprocess.PIPE, stderr=subprocess.STDOUT, universal_newlines=True, timeout=timeout)
+    traces, mach = [], []
+    if os.path.exists(log):
+        for line in open(log):
+            t = json.loads(line)
+            (mach if 'machinery' in t else traces).append(t)
+    shutil.rmtree(d, ignore_errors=True)
+    tail = p.stdout.strip().splitlines()[-1] if p.stdout.strip() else ''
+    return traces, mach, tail
+
+
+def check_evals(rep):
+    """C05 on the repository's own tests: every call any test makes is a trace of Trace_Eval"""
+    import c05
+    traces, mach, tail = record_evals()
+    if mach:
+        raise vlib.MachineryError('evaluation recorder failed on %d calls, e.g. %s' % (len(mach), mach[0]))
+    if len(traces) < 100:
+        raise vlib.MachineryError('the repository test suite produced only %d recorded calls (%s)' % (len(traces), tail))
+    res, acc, bad = c05.validate(traces, tag='Suite_Eval')
+    for i, t in enumerate(traces, 1):
+        if i in bad:
+            rep.violation('suite-trace:eval:%s' % bad[i], dict(cfg=t['cfg'], events=t['ev'][:40]), '%s violated by the evaluations of a %s/%s/n=%d call made by the repository test %s' % (bad[i], t['cfg']['cls'], t['cfg']['m'], t['cfg']['n'], t['cfg']['key']))
+        elif i not in acc:
+            k = c05.longest_prefix(t) if hasattr(c05, 'longest_prefix') else None
+            rep.violation('suite-trace:eval:inadmissible', dict(cfg=t['cfg'], events=t['ev'][:40], first_rejected=k),
+                          'a %s/%s/n=%d/order=%d call made by the repository test %s evaluates f at a point that is not a term of the stencil the specification assigns to it (event %s)' % (
+                              t['cfg']['cls'], t['cfg']['m'], t['cfg']['n'], t['cfg']['o'], t['cfg']['key'], k))
+    return [res], dict(suite_eval_traces=len(traces), suite_eval_events=sum(len(t['ev']) for t in traces), suite_result=tail)
+
+
 def _validate(module, cfg, traces, tag):
     d = vlib.run_dir(tag + '-data')
     path = os.path.join(d, 'traces.json')
